@@ -31,7 +31,7 @@ import (
 )
 
 func init() {
-	props["C05"] = func(r *Rec) { runStake(r, "C05"); c05UpgradeFlow(r, "C05"); c05DuplicateConsKey(r, "C05"); c06RestartWithIdleValidator(r, "C05") }
+	props["C05"] = func(r *Rec) { runStake(r, "C05"); c05UpgradeFlow(r, "C05"); c05DuplicateConsKey(r, "C05"); c06RestartWithIdleValidator(r, "C05"); c05OrphanSigningRecord(r) }
 	props["C15"] = func(r *Rec) { runStake(r, "C15"); c15DupKeyKeepsDeadline(r) }
 }
 
@@ -1273,5 +1273,43 @@ func c15DupKeyKeepsDeadline(r *Rec) {
 	r.Case(label, true)
 	if accepted || status() == stakingtypes.Active {
 		r.Fail("C15/activate/before-inactive-until", fmt.Sprintf("%s: validator 0 was inactivated for downtime with an inactivity period of 3600 s; after another account joined announcing its consensus key, its MsgActivate was accepted %d s into the period (status now %s)", label, int(w.now.Sub(w.t0).Seconds()), status()), nil)
+	}
+}
+
+// c05OrphanSigningRecord: a chain started from a genesis file that carries a left-over signing record - its consensus address
+// belongs to no validator (a hand-pruned hard-fork file) - and ONE validator. The pause guard is about validators: the last
+// validator's MsgPause is refused, the consensus set never becomes empty.
+func c05OrphanSigningRecord(r *Rec) {
+	label := "single validator next to a left-over signing record"
+	r.Mark(label)
+	w := NewWorld(WorldOpts{NAcc: 3, NVal: 1, SudoAccs: []int{2}, MutGenesis: func(w *World, gs simapp.GenesisState) {
+		cdc := w.enc.Marshaler
+		var sg slashingtypes.GenesisState
+		cdc.MustUnmarshalJSON(gs[slashingtypes.ModuleName], &sg)
+		for k := 0; k < 2; k++ {
+			orphan := sdk.ConsAddress([]byte(fmt.Sprintf("orphan_cons_address%d", k))[:20])
+			sg.SigningInfos = append(sg.SigningInfos, slashingtypes.SigningInfo{Address: orphan.String(), ValidatorSigningInfo: slashingtypes.ValidatorSigningInfo{Address: orphan.String(), InactiveUntil: time.Unix(0, 0).UTC()}})
+		}
+		gs[slashingtypes.ModuleName] = cdc.MustMarshalJSON(&sg)
+	}})
+	for b := 0; b < 2; b++ {
+		br := w.Block(nil, BlockOpts{Dt: 6 * time.Second})
+		if br.Panicked != nil {
+			r.Count("orphan-signing-record:block-panicked")
+			return
+		}
+		w.ApplyUpdates(br.Updates)
+	}
+	br := w.Block([][]byte{w.MustSign([]sdk.Msg{slashingtypes.NewMsgPause(sdk.ValAddress(w.addrs[0]))}, 0, ukex(5000))}, BlockOpts{Dt: 6 * time.Second})
+	if br.Panicked != nil {
+		r.Count("orphan-signing-record:block-panicked")
+		return
+	}
+	accepted := len(br.Results) == 1 && br.Results[0].Code == 0
+	err := w.ApplyUpdates(br.Updates)
+	r.Count(fmt.Sprintf("orphan-signing-record:pause-accepted=%v", accepted))
+	r.Case(label, true)
+	if accepted || err != nil || len(w.valSet.Validators) == 0 {
+		r.Fail("C05/pause/last-validator-left-the-set", fmt.Sprintf("%s: the only validator's MsgPause was accepted=%v; applying the block's updates: %v; the consensus set now has %d members", label, accepted, err, len(w.valSet.Validators)), nil)
 	}
 }
